@@ -291,6 +291,19 @@ def summarise(func, limit=6000, to_raise=True, lists=False):
                         core = core.operand
                     if isinstance(core, ast.Constant) and bool(core.value) != truth:
                         ps.infeasible = True
+                    # a display (fresh tuple/list/dict) or a non-None constant
+                    # is never None
+                    if isinstance(core, ast.Compare) and len(core.ops) == 1 and \
+                            isinstance(core.ops[0], (ast.Is, ast.IsNot)):
+                        l_, r_ = core.left, core.comparators[0]
+                        for a_, b_ in ((l_, r_), (r_, l_)):
+                            if isinstance(b_, ast.Constant) and b_.value is None and (
+                                    isinstance(a_, (ast.Tuple, ast.List, ast.Dict, ast.Set))
+                                    or (isinstance(a_, ast.Constant)
+                                        and a_.value is not None)):
+                                isnone_claim = (c.endswith(' is None') and truth)
+                                if isnone_claim:
+                                    ps.infeasible = True
                     b = env.binding(a)
                     _mark_stale(ps, stale, nev)
                     nev = len(ps.events)
@@ -328,11 +341,14 @@ def summarise(func, limit=6000, to_raise=True, lists=False):
                 while isinstance(disp, ast.Call) and isinstance(disp.func, ast.Name) and \
                         disp.func.id in ('reversed', 'list', 'tuple') and len(disp.args) == 1:
                     disp = disp.args[0]
-                if lists and isinstance(disp, (ast.List, ast.Tuple)) and not any(
-                        isinstance(x, ast.Starred) for x in disp.elts):
+                if (lists or isinstance(disp, ast.Tuple)) and \
+                        isinstance(disp, (ast.List, ast.Tuple)) and (
+                        any(not isinstance(x, ast.Starred) for x in disp.elts)
+                        or not disp.elts):
                     if lab == 'iter' and not disp.elts:
                         ps.infeasible = True
-                    if lab == 'exhausted' and disp.elts and n.id not in iterated:
+                    if lab == 'exhausted' and n.id not in iterated and any(
+                            not isinstance(x, ast.Starred) for x in disp.elts):
                         ps.infeasible = True
                 if lab == 'iter':
                     iterated.add(n.id)
